@@ -4,5 +4,5 @@ id=$1; shift
 git -C /repo apply /verif/seeded/$id/patch.diff || { echo "$id APPLY-FAIL"; exit 2; }
 res=""
 for p in "$@"; do timeout 2400 ./check $p --tier quick > /tmp/seedrun-$id-$p.log 2>&1; res="$res $p=$?"; done
-git -C /repo checkout -- .
+git -C /repo checkout -- . && git -C /repo clean -fdq
 echo "$id$res"
